@@ -240,18 +240,14 @@ Proof.
   rewrite Z.gtb_ltb, Z.geb_leb. repeat split; reflexivity.
 Qed.
 
-Lemma int_eq_exact a b : known_int_eq a b = false -> eq_lossy (VInt a) (VInt b) = (a =? b).
-Proof.
-  unfold known_int_eq. cbn. destruct (Z.eqb_spec a b) as [->|Hne]; cbn.
-  - intros _. apply f_eq_refl, of_i64_not_nan.
-  - auto.
-Qed.
+Lemma int_eq_exact a b : eq_lossy (VInt a) (VInt b) = (a =? b).
+Proof. reflexivity. Qed.
 
-Lemma int_consistent a b : known_int_eq a b = false -> cmp_consistent (VInt a) (VInt b).
+Lemma int_consistent a b : cmp_consistent (VInt a) (VInt b).
 Proof.
-  intros Hk. exists (a <? b), (a =? b), (b <? a).
+  exists (a <? b), (a =? b), (b <? a).
   destruct (int_order a b) as (H1 & H2 & H3 & H4).
-  rewrite H1, H2, H3, H4. cbn [binop]. rewrite (int_eq_exact a b Hk).
+  rewrite H1, H2, H3, H4. cbn [binop]. rewrite (int_eq_exact a b).
   repeat split; auto.
   - unfold exactly_one. destruct (Z.ltb_spec a b), (Z.eqb_spec a b), (Z.ltb_spec b a); cbn; try reflexivity; lia.
   - do 2 f_equal. destruct (Z.leb_spec a b), (Z.ltb_spec a b), (Z.eqb_spec a b); cbn; try reflexivity; lia.
@@ -548,15 +544,15 @@ Qed.
 Lemma not_orderable x y o : orderable x y = false -> try_cmp o x y = Err EType.
 Proof. destruct x, y; cbn; try discriminate; reflexivity. Qed.
 
-(* the witness of the finding C10-int-eq-lossy: 2^53 + 1 and 2^53 *)
-Lemma int_eq_exact_refuted : exists a b : Z,
-  in_i64 a /\ in_i64 b /\ a <> b /\ known_int_eq a b = true
-  /\ binop OEq (VInt a) (VInt b) = Ok (VBool true) /\ binop OGt (VInt a) (VInt b) = Ok (VBool true)
-  /\ ~ cmp_consistent (VInt a) (VInt b).
+(* the witness of the former finding C10-int-eq-lossy (2^53 + 1 and 2^53): the two conversions to f64 still
+   coincide, and the integers now compare unequal, with exactly `>` true *)
+Lemma int_eq_former_witness :
+  let a := 9007199254740993 in let b := 9007199254740992 in
+  in_i64 a /\ in_i64 b /\ known_int_eq a b = true
+  /\ binop OEq (VInt a) (VInt b) = Ok (VBool false) /\ binop ONe (VInt a) (VInt b) = Ok (VBool true)
+  /\ binop OGt (VInt a) (VInt b) = Ok (VBool true) /\ binop OLt (VInt a) (VInt b) = Ok (VBool false)
+  /\ binop OEq (VInt a) (VFloat (of_i64 b)) = Ok (VBool true).
 Proof.
-  exists 9007199254740993, 9007199254740992.
-  split; [unfold in_i64, two63; lia|]. split; [unfold in_i64, two63; lia|]. split; [lia|].
-  split; [vm_compute; reflexivity|]. split; [vm_compute; reflexivity|]. split; [vm_compute; reflexivity|].
-  intros (lt & eq & gt & H1 & H2 & H3 & H4 & _).
-  vm_compute in H2, H3. inversion H2; inversion H3; subst. destruct lt; discriminate.
+  cbv zeta. split; [unfold in_i64, two63; lia|]. split; [unfold in_i64, two63; lia|].
+  repeat split; vm_compute; reflexivity.
 Qed.
